@@ -136,12 +136,13 @@ prop(
 
 prop(
     "C10",
-    rules=["C10-R1", "C10-R2", "C10-R4", "C10-R3", "C10-R6"],
-    mir_rules=[U.rule_commit_sections, S2.rule_grower, S2.rule_ctor, SP.rule_sealed_callbacks, U.rule_clone_unwind],
+    rules=["C10-R1", "C10-R2", "C10-R4", "C10-R3", "C10-R6", "C10-R7"],
+    mir_rules=[U.rule_commit_sections, S2.rule_grower, S2.rule_ctor, SP.rule_sealed_callbacks, U.rule_clone_unwind, S2.rule_populate],
     floors={"C10-R6": lambda c: n_storages(c), "C10-R1": lambda c: 7 * n_storages(c), "C10-R2": lambda c: 2 * n_storages(c), "C10-R4": lambda c: 2 * n_storages(c)},
     explanation="Static analysis (may-unwind classification of every effect on every path, closed std tables, fail closed on unclassified callees). Decides: C10-R1 no creator, remover, grower or entry point wrapping them "
     "has a may-unwind point between its first and its last state write (nor a panic path after the first write), exemptions only by keyed table entry with reason; C10-R2 the documented capacity panics precede all writes; "
     "C10-R4 RefCell borrow panics occur only in functions that do not write the representation; C10-R3 user callbacks run only in generated code outside gecs' own mutators (sealed callbacks); "
+    "C10-R7 the unwrap inside populate_free_list (exempted in the grower's commit section) cannot panic because the loop threads exactly start..len-1; "
     "C10-R6 while Clone::clone runs user Clone code no value of the storage type (which has Drop) is dropped on an unwind edge, or, if one is, its len is only advanced after the row's user calls of that iteration.",
     not_decided="that every other property still holds after a panic beyond `no mutator was interrupted between two state writes`; panics inside user Drop during unwinding; callbacks in generated code are judged by the specimen rules",
 )
@@ -221,7 +222,7 @@ prop(
 
 prop(
     "C15",
-    rules=["C15-R1", "C15-R2", "C15-R3", "C15-R4", "C15-R7", "C16-R4", "C15-R6", "C15-R8", "C15-R5"],
+    rules=["C15-R1", "C15-R2", "C15-R3", "C15-R4", "C15-R7", "C16-R4", "C15-R6", "C15-R8", "C15-R5", "C14-R5"],
     static_rules=[T.rule_template_shapes, CP.rule_id_corpus],
     static_floors={'C15-R6': 1, 'C15-R8': 400},
     mir_rules=[M.rule_advance_id, M.rule_dataworld, SP.rule_tables],
@@ -231,7 +232,7 @@ prop(
     "components get a fresh map and previous=None inside each archetype iteration, cfg-disabled items are skipped before id assignment; C15-R4 DataArchetype.id/DataComponent.id are the ids just assigned. "
     "Sampled: C15-R7 the evaluated ARCHETYPE_ID/COMPONENT_ID/NUM_ARCHETYPES constants of the specimen equal an independent oracle. "
     "Compile-time witnesses (E4, generated): C15-R8 every assignment of {implicit, 0, 1, 5, 254, 255} to 3 (thorough: also 4) archetypes and to 3 (4) components is compiled with `const _: () = assert!(..)` on ARCHETYPE_ID, ArchetypeHas::COMPONENT_ID, ecs_component_id! and NUM_ARCHETYPES "
-    "against an independent re-statement of the discriminant rule; declarations with a duplicate id or counting past 255 must be rejected with the generator's message (quick 432, thorough 3024 declarations); C15-R5 an id literal of 255 is accepted as written, literals above 255 are rejected."
+    "against an independent re-statement of the discriminant rule; declarations with a duplicate id or counting past 255 must be rejected with the generator's message (quick 432, thorough 3024 declarations); C15-R5 an id literal of 255 is accepted as written, literals above 255 are rejected; C14-R5 (shared with C14) the generated Select* conversions and SelectArchetype::archetype_id report exactly these ids (each declared id once, every other id rejected)."
     "Reporting policy: a finding of the structural rules on the generator's own code (its MIR and template tokens: shape recognisers) is reported only if the generated-program corpus of this property also reports a difference or did not run in full; otherwise it is recorded in the evidence as an unconfirmed structural finding (a behaviour-preserving refactoring of the generator is not an alarm).",
     not_decided="token emission of the ids (quote! interpolation) is witnessed on the specimen constants, not proved for all declarations",
 )
